@@ -190,8 +190,20 @@ def F10():
     return None
 
 
+def F14():
+    # both blinds are all-in from the antes; a late-seated player's post (negative entry) must not move the opener
+    autos = (A.ANTE_POSTING, A.BET_COLLECTION, A.BLIND_OR_STRADDLE_POSTING, A.HOLE_DEALING)
+    plain = NoLimitTexasHoldem.create_state(autos, True, 1, (1, 2, 0, 0), 2, (1, 1, 5, 5), 4)
+    post = NoLimitTexasHoldem.create_state(autos, True, 1, (1, 2, 0, -2), 2, (1, 1, 5, 5), 4)
+    if plain.actor_index != 2:
+        return f'without a post player {plain.actor_index} opens, expected 2 (first able seat after the blinds)'
+    if post.actor_index != 2:
+        return f'with a post by player 3 player {post.actor_index} opens, without it player 2: the post counted'
+    return None
+
+
 if __name__ == '__main__':
-    names = sys.argv[1:] or ['F1', 'F2', 'F3', 'F4', 'F5', 'F6', 'F7', 'F8', 'F9', 'F10']
+    names = sys.argv[1:] or ['F1', 'F2', 'F3', 'F4', 'F5', 'F6', 'F7', 'F8', 'F9', 'F10', 'F14']
     bad = 0
     for n in names:
         try:
